@@ -84,6 +84,10 @@ DeleteVertsViolWith(s, I, t, m) ==
     \cup V(\A f \in AttrNames : (s.lens[f] = 0) = (t.lens[f] = 0) \/ t.nv = 0, "NoAttributeArrayLostOrGained")
     \cup V(s.isStrips \/ t.nv = 0 \/ t.tris = MapTris(s.tris, m), "TrianglesWithoutDeletedVerticesInOrder")
     \cup V(t.nv = 0 \/ Len(t.weights) # Len(s.weights) \/ t.weights = WeightsAfter(s.weights, m), "SkinWeightsFollowTheirVertices")
+    \* every surviving triangle stays in the segment / sub-segment it was in
+    \cup V((t.nv = 0 \/ s.isStrips \/ Len(s.segs) = 0 \/ Len(s.segTriParts) # Len(s.tris) \/ Len(t.segTriParts) # Len(t.tris)) \/
+           LET K == SelectSeq([k \in 1..Len(s.tris) |-> k], LAMBDA k : \A c \in 1..3 : m[s.tris[k][c] + 1] >= 0)
+           IN  t.segTriParts = [j \in 1..Len(K) |-> s.segTriParts[K[j]]], "SegmentLabelsFollowTheirTriangles")
     \cup V(t.nv = 0 \/ Len(t.bones) = Len(s.bones), "BoneListKept")
     \cup (IF t.nv = 0 THEN {} ELSE ShapeConsistentViol(t))
 DeleteVertsViol(s, I, t) == UNION {DeleteVertsViolWith(s, I, t, m) : m \in {FastCollapse(I, s.nv)}}
